@@ -42,7 +42,7 @@ func VerifC15Stream() {
 				return nil
 			case 1:
 				for i := 0; i < M; i++ {
-					w.oneOp(txn, menu&^16, maxLen) // no inserts in a transaction that rolls back (see C02)
+					w.oneOp(txn, menu&^(16|32|64), maxLen) // no inserts in a transaction that rolls back (see C02)
 				}
 				return vErrAbort
 			default:
